@@ -183,13 +183,35 @@ def survived_suite(r):
     return "490 passed" in s and "failed" not in s and "error" not in s
 
 
+COST = ["C14", "C06", "C05", "C04", "C10", "C01", "C02", "C03", "C08", "C15", "C16", "C12", "C17", "C19", "C07", "C11", "C13", "C18", "C09"]
+_COVER = {}
+
+
+def covering(m, covdir):
+    """checks whose quick run executes the mutated line (from `VERIF_COVER` runs on the unchanged tree), cheapest first"""
+    if not _COVER:
+        for c in COST:
+            p = os.path.join(covdir, c + ".lines")
+            _COVER[c] = set(open(p).read().split()) if os.path.exists(p) else set()
+    key = "{}:{}".format(m["file"], m["line"])
+    cov = [c for c in COST if key in _COVER[c]]
+    if len(cov) >= 12:                      # an import-time line (constant, table row): every check executes it
+        rel = ORDER.get(m["file"], ASM_ORDER)
+        cov = [c for c in COST if c in rel]
+    return cov
+
+
 def checks_one(args):
-    m, nproc, tier = args
+    m, nproc, tier, covdir = args
+    order = covering(m, covdir)
+    res = dict(m, killed_by=None, runs=[], covered_by=order)
+    if not order:
+        res["killed_by"] = None
+        res["uncovered"] = True
+        return res
     scratch, copy = make_copy(m)
-    res = dict(m, killed_by=None, runs=[])
     try:
         env = dict(os.environ, VERIF_REPO=copy, VERIF_NO_EVIDENCE="1", VERIF_FAILFAST="1", VERIF_NPROC=str(nproc))
-        order = ORDER.get(m["file"], ASM_ORDER)
         for c in order:
             t0 = time.time()
             try:
@@ -228,7 +250,7 @@ def cmd_checks(a):
         ms = ms[:a.limit]
     print("to run:", len(ms), flush=True)
     with open(a.out, "a") as f, ThreadPoolExecutor(a.jobs) as ex:
-        for i, r in enumerate(ex.map(checks_one, [(m, a.nproc, a.tier) for m in ms])):
+        for i, r in enumerate(ex.map(checks_one, [(m, a.nproc, a.tier, a.covdir) for m in ms])):
             f.write(json.dumps(r) + "\n")
             f.flush()
             print(i, r["id"], r["file"], r["line"], r["op"], repr(r["old"]), "->", repr(r["new"]), "KILLED " + r["killed_by"] if r["killed_by"] else "SURVIVED",
@@ -238,13 +260,14 @@ def cmd_checks(a):
 def cmd_report(a):
     rs = [json.loads(x) for x in open(a.inp)]
     killed = [r for r in rs if r["killed_by"]]
-    print("mutants run: {}  killed: {}  survived: {}".format(len(rs), len(killed), len(rs) - len(killed)))
+    unc = [r for r in rs if r.get("uncovered")]
+    print("mutants run: {}  killed: {}  on lines no check executes: {}  survived: {}".format(len(rs), len(killed), len(unc), len(rs) - len(killed) - len(unc)))
     by = {}
     for r in killed:
         by[r["killed_by"]] = by.get(r["killed_by"], 0) + 1
     print("killed by:", dict(sorted(by.items())))
     for r in rs:
-        if not r["killed_by"]:
+        if not r["killed_by"] and not r.get("uncovered"):
             print("SURVIVED {} {}:{} {} {!r} -> {!r}".format(r["id"], r["file"], r["line"], r["op"], r["old"], r["new"]))
 
 
@@ -264,6 +287,7 @@ def main():
     c.add_argument("--jobs", type=int, default=4)
     c.add_argument("--nproc", type=int, default=4)
     c.add_argument("--tier", default="quick")
+    c.add_argument("--covdir", default="/var/tmp/cov")
     c.add_argument("--only-op", default="")
     c.add_argument("--only-file", default="")
     c.add_argument("--limit", type=int, default=0)
